@@ -11,6 +11,8 @@ package main
 import (
 	"fmt"
 	"math/rand"
+	"os"
+	"regexp"
 	"strconv"
 	"strings"
 )
@@ -90,7 +92,7 @@ func c12ErrNT(i Resp) bool { return i["class"] == "syntax" || i["class"] == "run
 
 // ---- texts for the pos family ---------------------------------------------------
 
-var c12LinePool = []string{"", "", " ", "x = 1", "# comment é", "print 'héé'", "\t\tindented", "a\rb", "日本語", "\x80\xfe", "é", "tail \r", "\r", "BEGIN {", "}", "s = \"a#b\"  # trailing", "🙂", "x\xc3", "\xa9y", "ab"}
+var c12LinePool = []string{"", "", " ", "x = 1", "# comment é", "print 'héé'", "\t\tindented", "a\rb", "日本語", "\x80\xfe", "é", "tail \r", "\r", "BEGIN {", "}", "s = \"a#b\"  # trailing", "🙂", "x\xc3", "\xa9y", "ab", "a\fb", "x\u2028y", "n\u0085l", "v\vt", "\f", "s = \"é\tü\"\t# 日本"}
 
 func c12Text(r *rand.Rand) string {
 	n := r.Intn(10)
@@ -110,6 +112,159 @@ func c12Text(r *rand.Rand) string {
 		t += sep + sep
 	}
 	return t
+}
+
+// ---- hostile text before (and after) the fault ------------------------------------------------
+
+// complete statements, valid inside a block (and as a bare pattern at top level), that never
+// fault: string and regex literals containing RAW line breaks (LF, CR LF, several, a break right
+// before the closing quote), \n escapes, comments with quotes, tabs, multi-byte characters, form
+// feeds, U+2028 / U+0085 (line breaks for Unicode, not for jqawk), very long lines
+var c12Hostile = []string{
+	"h1 = \"first half\nsecond half\"",
+	"h2 = 'a\r\nb'",
+	"h3 = \"l1\n\nl3\n\"",
+	"h4 = \"esc\\n only \\t no break\"",
+	"h5 = /a\nb/",
+	"h6 = /x\ny\nz/",
+	"h7 = 'x' ~ /a\n/",
+	"# it's \"quoted",
+	"h8 = 1 # ' unbalanced \"",
+	"h9 =\t\t2\t# tabs",
+	"h10 = \"tab\tinside\ttabs\"",
+	"h11 = \"é日本🙂\"  # é 日本",
+	"h12 = \"form\ffeed\" # \f\v",
+	"h13 = \"a#b\n#c\"",
+	"h14 = \"it's\n'quoted'\"",
+	"h15 = [\"a\nb\", /c\nd/, 'e\nf']",
+	"if (h1 == \"a\nb\") { h16 = 1 }",
+	"h17 = {k: \"v\nw\", 'k\n2': 1}",
+	"h18 = \"x\ny\".length()",
+	"h19 = \"u2028   nel \u0085 ls\" #   \u0085  ",
+	"h20 = 'é\n日本\n🙂'",
+	"h21 = \"\n\"",
+	"h22 = '\n\n\n'",
+	"h23 = \"cr only\rhere\"",
+	"h24 = \"ends with cr lf\r\n\"",
+	"",
+	"   ",
+	"\t",
+	"h26 = \"" + strings.Repeat("x", 150) + "\n" + strings.Repeat("y", 150) + "\"",
+	"h27 = \"\\\\\n\\\\\"",
+	"h28 = /[\n]/",
+}
+
+// very long lines (past 255, 4096 bytes): picked rarely, they make the cases big
+var c12HostileLong = []string{
+	"h25 = \"" + strings.Repeat("long ", 1000) + "\"",
+	"# " + strings.Repeat("a very long comment é ", 200),
+	"h30 = \"" + strings.Repeat("é", 2100) + "\n" + strings.Repeat("y", 300) + "\"",
+}
+
+// c12LongLines: a fault at the end of / on the line after a line of 300, 5 000 and 70 000 bytes
+// (a long string, a long comment), for one kind of fault: "illegal", "unterminated", "arrow", "runtime".
+func c12LongLines(kind string, emit func(Case)) {
+	for _, n := range []int{300, 5000, 70000} {
+		for _, sameLine := range []bool{true, false} {
+			for _, filler := range []string{"string", "comment"} {
+				if filler == "comment" && sameLine {
+					continue // a comment runs to the end of its line
+				}
+				long := "  s = \"" + strings.Repeat("0123456789", n/10) + "\""
+				if filler == "comment" {
+					long = "  # " + strings.Repeat("0123456789", n/10)
+				}
+				sep := "; "
+				if !sameLine {
+					sep = "\n  "
+				}
+				head := "BEGIN {\n  a = 1\n" + long + sep
+				var text, class string
+				var off, ln int
+				switch kind {
+				case "illegal":
+					text, class, off, ln = head+"b = 2 @ 3\n}\n", "syntax", len(head)+6, 1
+				case "unterminated":
+					text, class, off, ln = head+"b = 'open\n}\n", "syntax", len(head)+5, 1
+				case "arrow":
+					text, class, off, ln = head+"b = 2 => 3\n}\n", "syntax", len(head)+6, 2
+				default:
+					text, class, off, ln = head+"b = 1 / 0\n}\n", "runtime", len(head)+4, 5
+				}
+				emit(Case{Req: RunReq(text, nil, nil, false), Fields: c12Fields,
+					Meta:   map[string]string{"program": short(text), "probe": fmt.Sprintf("%s fault after a %d-byte %s, same line: %v", kind, n, filler, sameLine)},
+					Oracle: c12At(text, class, off, ln), NonTrivial: c12ErrNT})
+			}
+		}
+	}
+}
+
+// c12HasComment: does a statement of the pool carry a comment ('#' outside its string and regex
+// literals; '/' only occurs as a regex delimiter there)?
+func c12HasComment(st string) bool {
+	var q byte
+	for i := 0; i < len(st); i++ {
+		c := st[i]
+		switch {
+		case q != 0:
+			if c == q {
+				q = 0
+			}
+		case c == '"' || c == '\'' || c == '/':
+			q = c
+		case c == '#':
+			return true
+		}
+	}
+	return false
+}
+
+// c12HostileBlock writes `KW {` + n hostile statements + `}`; returns the text and, for every
+// statement, the offset right after it (still on its last line).
+func c12HostileBlock(r *rand.Rand, kw string, n int, huge bool) (string, []int) {
+	var sb strings.Builder
+	var points []int
+	crlf := r.Intn(3)
+	sb.WriteString(kw + " {")
+	sb.WriteString(c12Eol(r, crlf))
+	for i := 0; i < n; i++ {
+		st := pick(r, c12Hostile)
+		if chance(r, 0.007) {
+			st = pick(r, c12HostileLong)
+		}
+		if huge && i == 0 {
+			st = "h29 = \"" + strings.Repeat("0123456789", 7000) + "\"" // a 70 kB line
+		}
+		sb.WriteString(pick(r, []string{"  ", "", "\t", "    "}))
+		sb.WriteString(st)
+		if strings.TrimSpace(st) != "" && !c12HasComment(st) {
+			points = append(points, sb.Len())
+		}
+		sb.WriteString(c12Eol(r, crlf))
+	}
+	sb.WriteString("}")
+	sb.WriteString(c12Eol(r, crlf))
+	return sb.String(), points
+}
+
+// c12Surround puts a hostile block before (and sometimes after) a program text and shifts the
+// given offsets; extra = offsets inside the hostile block right after a multi-line literal.
+func c12Surround(r *rand.Rand, text string, offs ...[]int) (string, []int) {
+	pre, points := c12HostileBlock(r, "BEGIN", 1+r.Intn(5), chance(r, 0.02))
+	for _, o := range offs {
+		for i := range o {
+			o[i] += len(pre)
+		}
+	}
+	out := pre + text
+	if chance(r, 0.3) {
+		post, _ := c12HostileBlock(r, "END", 1+r.Intn(3), false)
+		if !strings.HasSuffix(out, "\n") {
+			out += "\n"
+		}
+		out += post
+	}
+	return out, points
 }
 
 // ---- illegal characters ------------------------------------------------------------
@@ -163,6 +318,8 @@ var c12Faults = []c12Fault{
 	{"printf('%s', 1)", "printf %s with a number", false}, {"printf(1)", "printf without a format", false}, {"printf('%q', 1)", "printf unknown verb", false}, {"printf('%f', 'a')", "printf %f with a string", false}, {"printf('%s')", "printf missing argument", false},
 	{`'a\qb'`, "bad string escape", false}, {`"tail\"`, "backslash at end of string", false}, {`'é\x'`, "bad escape after non-ASCII", false},
 	{"[1][0 - 5]", "index out of range", false}, {"[printf]", "function stored in an array", false}, {"fv = printf", "function assigned", false}, {"json(1, 2)", "json with two arguments", false},
+	{"'l1\nl2\\qc'", "bad escape on the second line of a multi-line string", false}, {"\"é\n\n\\x\"", "bad escape after two raw line breaks", false}, {"'abc' ~ /(\n/", "bad regex literal containing a line break", false},
+	{"'abc' ~ \"l1\n(\"", "bad regex in a multi-line string", false},
 	{"for (q in 5) { }", "for-in over a number", true}, {"obj.k.z.w = 1", "member store below a number", true},
 }
 
@@ -185,11 +342,15 @@ var c12Wraps = []c12Wrap{
 	{"for (q in [", "]) { }", false, "stmt"}, {"for (q, qi in ", ") { }", true, "stmt"}, {"for (q in [1]) { x = ", " }", false, "stmt"}, {"{ { x = ", " } }", false, "stmt"},
 	{"x = match (", ") { 1 => 2 }", false, "stmt"}, {"x = match (1) { 1 => ", " }", false, "stmt"}, {"x = match (1) { q => { z = ", " } }", false, "stmt"}, {"x = match (5) { 1 => 2, q => ", ", 7 => 8 }", false, "stmt"},
 	{"x = y = ", "", false, "stmt"}, {"x = (y = ", ") + 1", false, "stmt"}, {"x++; x = ", "", false, "stmt"}, {"s = 'é日本'; t = \"# no comment\"; x = ", "  # comment é", false, "stmt"}, {"\tx\t=\t", "\t", false, "stmt"},
-	{"return ", "", false, "fn"}, {"if (v) return ", "", false, "fn"}, {"return v + ", "", true, "fn"}, {"w = ", "; return w", false, "fn"},
+	{"s = \"l1\nl2\"; x = ", "", false, "stmt"}, {"x = 'a\nb' + ", "", true, "stmt"}, {"x = [/r\ns/, \"é\n\", ", "]", false, "stmt"}, {"x = ", " + \"after\nbreak\"", true, "stmt"}, {"print \"m1\nm2\", ", "", false, "stmt"},
+	{"x = {k: 'v\r\nw', j: ", "}", false, "stmt"}, {"if (\"a\nb\" != ", ") { y = 1 }", true, "stmt"}, {"s = \"é日本\n🙂\";\tx =\t", "", false, "stmt"},
+	{"return ", "", false, "fn"}, {"s = 'm1\nm2'; return ", "", false, "fn"}, {"'p1\np2' != ", " { print }", true, "top"}, {"if (v) return ", "", false, "fn"}, {"return v + ", "", true, "fn"}, {"w = ", "; return w", false, "fn"},
 	{"", " { print }", false, "top"}, {"$.id > 0 && ", " { print }", true, "top"}, {"$.id > 0 { x = ", " }", false, "top"}, {"END { x = ", " }", false, "top"}, {"BEGINFILE { x = ", " }", false, "top"}, {"ENDFILE { print ", " }", false, "top"}, {"{ print $.id, ", " }", false, "top"},
 }
 
-var c12Filler = []string{"", "  ", "# comment", "\t# tab comment é 日本", "y = y + 1", "s = 'héé 日本'", "print 'line', y", "t = \"a#b\"  # trailing", "z = [1,", "y++;", "if (y > 100) { y = 0 }", "u1 = 'ü'; u2 = \"\x80 stray\"", "#", "print"}
+var c12Filler = []string{"h1 = \"first half\nsecond half\"", "h5 = /a\nb/", "h3 = \"l1\n\nl3\n\"", "h2 = 'a\r\nb'", "h12 = \"form\ffeed\" # \f", "h15 = [\"a\nb\", /c\nd/, 'e\nf']", "# it's \"quoted", "h19 = \"u2028 \u2028 nel \u0085\" # \u2028",
+	"h13 = \"a#b\n#c\"", "h20 = 'é\n日本\n🙂'", "h22 = '\n\n\n'",
+	"", "  ", "# comment", "\t# tab comment é 日本", "y = y + 1", "s = 'héé 日本'", "print 'line', y", "t = \"a#b\"  # trailing", "z = [1,", "y++;", "if (y > 100) { y = 0 }", "u1 = 'ü'; u2 = \"\x80 stray\"", "#", "print"}
 
 func c12Eol(r *rand.Rand, crlf int) string {
 	switch crlf {
@@ -210,6 +371,9 @@ func c12FaultProgram(r *rand.Rand, w c12Wrap, f c12Fault, nFill, pos, crlf int) 
 	eol := func() { sb.WriteString(c12Eol(r, crlf)) }
 	fill := func() {
 		l := pick(r, c12Filler)
+		if chance(r, 0.02) {
+			l = pick(r, c12HostileLong)
+		}
 		if l == "z = [1," {
 			sb.WriteString("  z = [1,")
 			eol()
@@ -314,6 +478,162 @@ func c12FaultProgram(r *rand.Rand, w c12Wrap, f c12Fault, nFill, pos, crlf int) 
 	return text, faultOff, faultLen
 }
 
+// ---- positions as the binary prints them ------------------------------------------------------
+
+var c12DiagRe = regexp.MustCompile(`^(syntax|runtime) error on line (\d+): `)
+
+// c12ParseDiag reads what cli.go's printError wrote: "  <source line>", "  <col blanks>^",
+// "<kind> error on line N: message".
+func c12ParseDiag(stderr string) (class string, line, col int, src string, ok bool) {
+	parts := strings.SplitN(stderr, "\n", 3)
+	if len(parts) < 3 || !strings.HasPrefix(parts[0], "  ") || !strings.HasPrefix(parts[1], "  ") || !strings.HasSuffix(parts[1], "^") {
+		return "", 0, 0, "", false
+	}
+	m := c12DiagRe.FindStringSubmatch(parts[2])
+	if m == nil || strings.Trim(parts[1], " ") != "^" {
+		return "", 0, 0, "", false
+	}
+	line, _ = strconv.Atoi(m[2])
+	return m[1], line, len(parts[1]) - 3, parts[0][2:], true
+}
+
+// c12DiagResp turns the binary's diagnostic into the fields of a library answer.
+func c12DiagResp(i Resp) (Resp, string) {
+	switch i["class"] {
+	case "nobinary":
+		return nil, "JQAWK_BIN is not set: the binary was not run"
+	case "badrequest", "crash", "garbled", "timeout":
+		return nil, "harness problem running the binary: " + i.String()
+	}
+	if i["exit"] == "0" {
+		return Resp{"class": "ok"}, ""
+	}
+	class, line, col, src, ok := c12ParseDiag(string(i.Bytes("stderr")))
+	if !ok {
+		return nil, "exit status " + i["exit"] + " but stderr is not a positioned diagnostic (source line, caret line, 'error on line N'): " + short(strconv.Quote(string(i.Bytes("stderr"))))
+	}
+	return Resp{"class": class, "line": fmt.Sprint(line), "col": fmt.Sprint(col), "src": hxs(src)}, ""
+}
+
+var c12Lead = []string{"\n", "\n\n\n", "  ", "\t", "\r\n\r\n", " \n\t\n", "# leading comment\n\n", "\n# c é\n  ", "\n  ", "\n\n\t\t", " ", "\r\n", "\n \n  \n", "", "", "#!/usr/bin/env jqawk -f\n\n"}
+var c12Trail = []string{"", "", "\n", "\n\n", "  ", "\r\n", "\t\n", "\n\n\n  ", " # trailing comment", "\n# c\n"}
+
+func c12ThroughBinary(r *rand.Rand, tier string, emit func(Case)) {
+	if os.Getenv("JQAWK_BIN") == "" {
+		emit(Case{ID: "no-binary", Req: "cli - - - -", ImplOnly: true, Oracle: func(i Resp) string { return "JQAWK_BIN is not set: the binary was not run" },
+			Meta: map[string]string{"problem": "env JQAWK_BIN is not set; this family runs the real binary"}})
+		return
+	}
+	doc := []byte(`[{"id": 1}, {"id": 2}]`)
+	n := tierN(tier, 160, 3000)
+	for i := 0; i < n; i++ {
+		var text, class, what string
+		var off, ln int
+		exact := true
+		switch i % 4 {
+		case 0, 1:
+			// a runtime fault of every kind in every form
+			w, f := pick(r, c12Wraps), pick(r, c12Faults)
+			for f.stmt && !(w.pre == "y = 2; " && w.post == "") {
+				w, f = pick(r, c12Wraps), pick(r, c12Faults)
+			}
+			nFill := 1 + r.Intn(3)
+			text, off, ln = c12FaultProgram(r, w, f, nFill, r.Intn(nFill+1), r.Intn(3))
+			class, what = "runtime", "runtime fault: "+f.what
+		default:
+			toks := c13Program(r, true)
+			body, offs := c13Render(toks, pick(r, c12Layouts), r)
+			starts, ends := c12Points(toks, body, offs)
+			k := r.Intn(len(toks))
+			switch r.Intn(4) {
+			case 0:
+				o := starts[k]
+				pre := " "
+				text, off, ln, class, what = body[:o]+pre+"=>"+body[o:], o+len(pre), 2, "syntax", "unexpected token => before "+toks[k].s
+			case 1:
+				o := ends[k]
+				b := pick(r, []string{"@", "^", "`", "\\", "?", "\x01"})
+				text, off, ln, class, what = body[:o]+b+" "+body[o:], o, 1, "syntax", fmt.Sprintf("illegal character %q after %s", b, toks[k].s)
+			case 2:
+				o := pick(r, []int{starts[k], ends[k]})
+				q := pick(r, []string{"'", `"`})
+				other := map[string]string{"'": `"`, `"`: "'"}[q]
+				text, off, ln, class, what = body[:o]+q+strings.ReplaceAll(body[o:], q, other), o+1, 1, "syntax", "unterminated string opened at offset "+fmt.Sprint(o)
+			default:
+				// cut off: the position of an end-of-input error depends on what white space follows
+				text, class, what, exact = body[:ends[k]], "syntax", "truncated after "+toks[k].s, false
+			}
+		}
+		lead, trail := pick(r, c12Lead), pick(r, c12Trail)
+		if i%8 == 7 {
+			lead = "" // starts in column 0 of line 1
+		}
+		if class == "syntax" && !exact {
+			trail = pick(r, []string{"", "\n", "\n\n\n", "  ", "\r\n\r\n", "\n\t"})
+		} else if strings.Contains(trail, "#") && strings.Contains(text[strings.LastIndexByte(text, '\n')+1:], "'") {
+			trail = "\n"
+		}
+		text = lead + text + trail
+		off += len(lead)
+		g := fmt.Sprintf("bin-%d", i)
+		meta := func(variant string) map[string]string {
+			return metaProg(text, "fault", what, "leading", strconv.Quote(lead), "trailing", strconv.Quote(trail), "variant", variant)
+		}
+		libOracle := func(i Resp) string {
+			if !exact {
+				if i["class"] == "syntax" || i["class"] == "runtime" {
+					return c12Consistent(text, i)
+				}
+				return ""
+			}
+			return c12At(text, class, off, ln)(i)
+		}
+		emit(Case{ID: g + "/lib", Req: RunReq(text, nil, []File{{Name: "in.json", Data: doc}}, false), Fields: c12Fields, Group: g,
+			Meta: meta("library run (reference of the group)"), Oracle: libOracle, NonTrivial: c12ErrNT})
+		for _, viaFile := range []bool{false, true} {
+			argv := []string{text, "in.json"}
+			files := []CliFile{{Name: "in.json", Data: doc}}
+			variant := "the binary, program as an argument"
+			if viaFile {
+				argv = []string{"-f", "prog.jqawk", "in.json"}
+				files = append(files, CliFile{Name: "prog.jqawk", Data: []byte(text)})
+				variant = "the binary, program in a file given with -f"
+			} else if strings.HasPrefix(text, "-") {
+				argv = append([]string{"--"}, argv...)
+			}
+			id := g + map[bool]string{false: "/inline", true: "/dash-f"}[viaFile]
+			emit(Case{ID: id, Req: CliReq(argv, nil, false, files, ""), Fields: []string{"exit", "out", "err"}, Group: g, Meta: meta(variant),
+				NonTrivial: func(i Resp) bool { return i["exit"] == "1" },
+				Oracle: func(i Resp) string {
+					d, w := c12DiagResp(i)
+					if w != "" {
+						return w
+					}
+					return libOracle(d)
+				},
+				GroupCheck: func(first, self Resp) string {
+					d, w := c12DiagResp(self)
+					if w != "" {
+						return "" // reported by the oracle
+					}
+					if first["class"] != "ok" && first["class"] != "syntax" && first["class"] != "runtime" {
+						return ""
+					}
+					for _, f := range c12Fields {
+						if d[f] != first[f] {
+							return fmt.Sprintf("the binary's diagnostic says %s=%s, the library reports %s=%s for the same program text (binary: class %s line %s col %s src %q; library: class %s line %s col %s src %q)",
+								f, short(d[f]), f, short(first[f]), d["class"], d["line"], d["col"], d.Bytes("src"), first["class"], first["line"], first["col"], first.Bytes("src"))
+						}
+					}
+					if string(self.Bytes("out")) != string(first.Bytes("out")) {
+						return fmt.Sprintf("stdout %q, the library printed %q before the error", self.Bytes("out"), first.Bytes("out"))
+					}
+					return ""
+				}})
+		}
+	}
+}
+
 func init() {
 	register(Family{
 		Name: "pos-every-offset", Prop: "C12",
@@ -343,9 +663,9 @@ func init() {
 	})
 	register(Family{
 		Name: "illegal-character", Prop: "C12",
-		Rule: "multi-line programs (token sequences of the C13 generator in 6 layouts) with one illegal byte sequence (ASCII, control, stray >= 0x80, multi-byte characters) inserted at every token start, every token end (before a newline, after ; , print-list commas, inside for headers ...), inside identifiers and numbers, at offset 0 and at the end; oracle: a syntax error whose line/col point exactly at the rejected byte (into the character for multi-byte ones) and whose src is that line",
+		Rule: "multi-line programs (token sequences of the C13 generator in 6 layouts) with one illegal byte sequence (ASCII, control, stray >= 0x80, multi-byte characters) inserted at every token start, every token end (before a newline, after ; , print-list commas, inside for headers ...), inside identifiers and numbers, at offset 0 and at the end (with and without a final newline); two programs in three are preceded (one in three of those also followed) by a block of hostile statements -- string and regex literals containing raw line breaks (LF, CR LF, several, one right before the closing quote), \\n escapes, comments containing quotes, tabs, multi-byte characters, form feeds, U+2028 / U+0085, CR-only, empty lines, lines of 300 - 5 000 (rarely 70 000) bytes -- with the illegal sequence also right after each of those statements; plus listed faults after lines of 300 / 5 000 / 70 000 bytes; oracle: a syntax error whose line/col point exactly at the rejected byte (into the character for multi-byte ones) and whose src is that line",
 		Gen: func(r *rand.Rand, tier string, emit func(Case)) {
-			n := tierN(tier, 30, 400)
+			n := tierN(tier, 24, 400)
 			for p := 0; p < n; p++ {
 				toks := c13Program(r, true)
 				layout := c12Layouts[p%len(c12Layouts)]
@@ -356,8 +676,20 @@ func init() {
 					what string
 					word bool // directly after a word: a letter-like lead byte would merge into it
 				}
+				var hostile []int
+				if p%3 != 0 {
+					// hostile text before (and sometimes after) the program
+					text, hostile = c12Surround(r, text, starts, ends)
+				}
+				noFinalNL := !strings.HasSuffix(text, "\n") && !strings.Contains(text[strings.LastIndexByte(text, '\n')+1:], "#")
 				text += "\n" // a trailing comment must not swallow what is appended
 				pts := []pt{{0, "offset 0", false}, {len(text), "end of text", false}}
+				if noFinalNL {
+					pts = append(pts, pt{len(text) - 1, "end of the last line, which has no final newline", false})
+				}
+				for _, h := range hostile {
+					pts = append(pts, pt{h, "right after a hostile statement (multi-line literal, comment with quotes, ...) before the program", false})
+				}
 				for i := range toks {
 					pts = append(pts, pt{starts[i], "start of token " + toks[i].s, false}, pt{ends[i], "end of token " + toks[i].s, toks[i].kind == 'w'})
 					if (toks[i].kind == 'w' || toks[i].kind == 'n') && len(toks[i].s) >= 2 && !c12IsKeyword(toks[i].s) {
@@ -376,6 +708,9 @@ func init() {
 						lead = " " // keep a keyword a keyword
 					}
 					mut := text[:q.off] + lead + b.seq + pad + text[q.off:]
+					if q.what == "end of the last line, which has no final newline" {
+						mut = text[:q.off] + lead + b.seq
+					}
 					at, n := q.off+b.at, 1
 					if len(b.seq) > 1 {
 						at, n = q.off+len(lead), len(b.seq)
@@ -385,6 +720,7 @@ func init() {
 						Oracle: c12At(mut, "syntax", at, n), NonTrivial: c12ErrNT})
 				}
 			}
+			c12LongLines("illegal", emit)
 			// single & and | (half an operator), and bytes that are fine inside strings and comments
 			for _, t := range []string{"BEGIN {\n  a = 1\n  b = a & 2\n}", "BEGIN {\n  a = 1\n  b = a | 2\n}", "BEGIN { a = 1 &", "BEGIN { a = 1 |\n}", "BEGIN {\n x = 1 &&& 2\n}", "BEGIN {\n x = 1 ||| 2\n}"} {
 				t := t
@@ -413,21 +749,30 @@ func init() {
 	})
 	register(Family{
 		Name: "unterminated-literal", Prop: "C12",
-		Rule: "the same programs with an opening quote (matching quotes removed from the rest) at every token boundary: syntax error exactly one byte after the quote; with a '/' in operand position (later slashes removed): exactly at the slash",
+		Rule: "the same programs (same hostile blocks before / after, the opening quote also right after every hostile statement, so that the unterminated literal spans many lines) with an opening quote (matching quotes removed from the rest) at every token boundary: syntax error exactly one byte after the quote; with a '/' in operand position (later slashes removed): exactly at the slash",
 		Gen: func(r *rand.Rand, tier string, emit func(Case)) {
-			n := tierN(tier, 25, 300)
+			n := tierN(tier, 20, 300)
 			for p := 0; p < n; p++ {
 				toks := c13Program(r, true)
 				layout := c12Layouts[p%len(c12Layouts)]
 				text, offs := c13Render(toks, layout, r)
 				starts, ends := c12Points(toks, text, offs)
-				for i := range toks {
+				var hostile []int
+				if p%3 != 0 {
+					text, hostile = c12Surround(r, text, starts, ends)
+				}
+				unterminated := func(off int, where string) {
 					q := pick(r, []string{"'", `"`})
 					other := map[string]string{"'": `"`, `"`: "'"}[q]
-					off := pick(r, []int{starts[i], ends[i]})
 					mut := text[:off] + q + strings.ReplaceAll(text[off:], q, other)
-					emit(Case{Req: RunReq(mut, nil, nil, false), Fields: c12Fields, Meta: metaProg(mut, "inserted", fmt.Sprintf("opening %s at offset %d", q, off)),
+					emit(Case{Req: RunReq(mut, nil, nil, false), Fields: c12Fields, Meta: metaProg(mut, "inserted", fmt.Sprintf("opening %s at offset %d%s", q, off, where)),
 						Oracle: c12At(mut, "syntax", off+1, 1), NonTrivial: c12ErrNT})
+				}
+				for _, h := range hostile {
+					unterminated(h, " (right after a hostile statement before the program)")
+				}
+				for i := range toks {
+					unterminated(pick(r, []int{starts[i], ends[i]}), "")
 					if i > 0 && toks[i-1].kind == 'o' && strings.Contains(" = += -= *= ( , + - * % < <= > >= == != && || ! [ : ~ !~ ", " "+toks[i-1].s+" ") && (toks[i].kind == 'n' || toks[i].kind == 's' || (toks[i].kind == 'w' && toks[i].s != "in")) {
 						// operand position: a '/' starts a regex literal
 						off := starts[i]
@@ -437,6 +782,7 @@ func init() {
 					}
 				}
 			}
+			c12LongLines("unterminated", emit)
 			for _, t := range []string{"'", `"`, "x = '", "BEGIN {\n print 'abc\n}\n", "BEGIN {\n print 1\n print \"é\n\n}", "BEGIN { x = 1 }\n'", "BEGIN { x = /abc\n}", "/", "BEGIN { x = 'a' ~ /", "BEGIN {\n\n  x = [/a/, /b\n]}", "BEGIN { x = 'é' + 'ü\n}"} {
 				t := t
 				emit(Case{Req: RunReq(t, nil, nil, false), Fields: c12Fields, Meta: metaProg(t, "probe", "unterminated literal (listed)"),
@@ -451,14 +797,23 @@ func init() {
 	})
 	register(Family{
 		Name: "unexpected-token", Prop: "C12",
-		Rule: "the same programs (without match, so that '=>' is never legal) with '=>' inserted at every token boundary: syntax error exactly at the inserted token; and truncated at every token boundary: whatever is reported must quote its own line (end-of-input errors)",
+		Rule: "the same programs (without match, so that '=>' is never legal; same hostile blocks, '=>' also right after every hostile statement) with '=>' inserted at every token boundary: syntax error exactly at the inserted token; and truncated at every token boundary: whatever is reported must quote its own line (end-of-input errors)",
 		Gen: func(r *rand.Rand, tier string, emit func(Case)) {
-			n := tierN(tier, 25, 300)
+			n := tierN(tier, 20, 300)
 			for p := 0; p < n; p++ {
 				toks := c13Program(r, true)
 				layout := c12Layouts[p%len(c12Layouts)]
 				text, offs := c13Render(toks, layout, r)
 				starts, ends := c12Points(toks, text, offs)
+				var hostile []int
+				if p%3 != 0 {
+					text, hostile = c12Surround(r, text, starts, ends)
+				}
+				for _, off := range hostile {
+					mut := text[:off] + " =>" + text[off:]
+					emit(Case{Req: RunReq(mut, nil, nil, false), Fields: c12Fields, Meta: metaProg(mut, "inserted", fmt.Sprintf("=> at offset %d right after a hostile statement before the program", off+1)),
+						Oracle: c12At(mut, "syntax", off+1, 2), NonTrivial: c12ErrNT})
+				}
 				for i := range toks {
 					off := starts[i]
 					pre := pick(r, []string{"", " ", "\t"})
@@ -478,6 +833,7 @@ func init() {
 						}, NonTrivial: c12ErrNT})
 				}
 			}
+			c12LongLines("arrow", emit)
 		},
 	})
 	register(Family{
@@ -550,10 +906,11 @@ func init() {
 	})
 	register(Family{
 		Name: "runtime-fault-position", Prop: "C12",
-		Rule: "every runtime fault kind (division by zero, call of a non-function, bad regex, compare of containers, unknown $name, bad printf arguments, bad string escape, ...) x every expression / statement form around it (operands, arguments, literals, conditions, loop headers, match, function bodies, rule patterns and bodies) placed on each line of multi-line programs with blank lines, comments, CRLF, tabs and non-ASCII bytes before the fault; oracle: runtime error, src = that line of the text, line = the fault's line, col inside the faulty construct",
+		Rule: "every runtime fault kind (division by zero, call of a non-function, bad regex, compare of containers, unknown $name, bad printf arguments, bad string escape, ...) x every expression / statement form around it (operands, arguments, literals, conditions, loop headers, match, function bodies, rule patterns and bodies) placed on each line of multi-line programs with blank lines, comments (also containing quotes), CRLF, tabs, non-ASCII bytes, string and regex literals with raw line breaks, form feeds, U+2028 and long lines before the fault, also on the same line right after / before a multi-line literal and inside one (bad escape on its second line); oracle: runtime error, src = that line of the text, line = the fault's line, col inside the faulty construct",
 		Gen: func(r *rand.Rand, tier string, emit func(Case)) {
 			files := []File{{Name: "in.json", Data: []byte(`[{"id": 1}, {"id": 2}]`)}}
 			reps := tierN(tier, 1, 6)
+			c12LongLines("runtime", emit)
 			for _, w := range c12Wraps {
 				for _, f := range c12Faults {
 					if f.stmt && !(w.pre == "y = 2; " && w.post == "") {
@@ -574,5 +931,10 @@ func init() {
 				}
 			}
 		},
+	})
+	register(Family{
+		Name: "positions-through-binary", Prop: "C12",
+		Rule: "the REAL BINARY's diagnostic (cli.go printError: the quoted source line, the caret line, 'syntax|runtime error on line N') parsed back into line / column / source line: programs with a runtime fault (every kind x every form, multi-line, the C12 fillers), an unexpected '=>', an illegal character, an unterminated string at a known offset, or cut off at a token boundary, preceded by blank lines / blanks / tabs / CR LF / comment lines / a #! line and followed by blank lines, blanks, comments; each given as the program argument and in a -f file. Oracle on the binary alone: line / col / quoted line are those of the fault in the text AS GIVEN (c12At); Group: equal to the library's line, col, src, class and stdout for the same text (the library run is compared with the model); the binary's exit / stdout / stderr-present are compared with the model's cli answer",
+		Gen:  c12ThroughBinary,
 	})
 }
